@@ -1288,6 +1288,8 @@ def make_builtins(I):
             return False
         name = t.name if isinstance(t, Builtin) else t.dotted.split(".")[-1] if isinstance(t, ExternalVal) else None
         if name is None:
+            if hasattr(v, "__vf_isinstance__"):            # harness-defined symbolic classes
+                return v.__vf_isinstance__(I, t)
             raise Unsupported(f"isinstance against {t!r}")
         h = getattr(v, "__vf_isinstance__", None)
         if h is not None:
